@@ -248,7 +248,7 @@ def run_net(ciw, cfg):
             if kth < len(rl):
                 r = rl[kth]
                 recs.append([vid + 1, q(r.arrival_date), q(r.service_start_date), q(r.exit_date)])
-        out.append({'node': node, 'K': x['K'], 'R': x['R'], 'arrs': arrs, 'recs': recs})
+        out.append({'node': node, 'K': x['K'], 'R': x['R'], 'arrs': arrs, 'recs': recs, 'revisits': any(v > 1 for v in seen.values())})
     return out
 
 
@@ -360,6 +360,9 @@ class C19(Prop):
         verdict, why, bad, per = ('A', []), None, None, []
         try:
             per = run_net(ciw, cfg)
+            while any(len(pn['arrs']) > 45 for pn in per) and cfg['T'] > 4:
+                cfg['T'] //= 2                      # overloaded node: keep the case small (the model runs to completion)
+                per = run_net(ciw, cfg)
             for pn in per:
                 K = 'inf' if pn['K'] == 'inf' else pn['K']
                 tree = [K, pn['R'][0], pn['R'][1], pn['arrs'], pn['recs'], [], [], [[cfg['T'], 1]]]
@@ -380,7 +383,7 @@ class C19(Prop):
         res['nontrivial'] = oc >= 3
         st = {'network_cases': 1, 'network_ps_nodes': len(per), 'network_ps_visits': sum(len(pn['arrs']) for pn in per),
               'network_ps_records': sum(len(pn['recs']) for pn in per),
-              'network_cases_with_revisits': 1 if any(len(pn['arrs']) > len(set(i for i, _ in [(a[0], 0) for a in pn['arrs']])) for pn in per) else 0,
+              'network_cases_with_revisits': 1 if any(pn['revisits'] for pn in per) else 0,
               'occchg_%s' % ('0' if oc == 0 else '1-2' if oc <= 2 else '3-5' if oc <= 5 else '6-10' if oc <= 10 else '11+'): 1}
         for pn in per:
             kk = 'cap_inf' if pn['K'] == 'inf' else 'cap_%d' % pn['K']
